@@ -585,6 +585,12 @@ func (db *DatabaseCollectionWithUser) GetDelta(ctx context.Context, docID, fromR
 		return nil, nil, base.ErrDeltaSourceIsTombstone
 	}
 
+	// Never diff against a revision the user cannot read: the delta names the properties the target dropped.
+	// Returning no delta makes the caller fall back to full body replication of toRev (which is authorized there).
+	if isAuthorized, _ := db.authorizeUserForChannels(docID, fromRev, nil, initialFromRevision.Channels, initialFromRevision.Deleted, nil); !isAuthorized {
+		return nil, nil, nil
+	}
+
 	// If delta is found, check whether it is a delta for the toRevID we want.
 	if initialFromRevision.Delta != nil && (initialFromRevision.Delta.ToCV == toRev || initialFromRevision.Delta.ToRevID == toRev) {
 		// Fetch fresh channel information for toRev: a user xattr update can change the document's
